@@ -3265,6 +3265,7 @@ static void MakeCode_Z80(void) {
 static void InitCode_Z80(void) {
     SetFlag(&ExtFlag, ExtFlagName, False);
     SetFlag(&LWordFlag, LWordFlagName, False);
+    CurrPrefix = LastPrefix = Pref_IN_N;
 }
 
 static Boolean IsDef_Z80(void) {
